@@ -1,6 +1,6 @@
 """C16 — events and async_pass wake every waiter exactly once and rendezvous atomically."""
 import k1
-from units import event, async_pass
+from units import event, async_pass, event_v2
 LEVEL = "proof"
 def run(chk, replay=None):
     chk.cov["trusted_base"] = [
@@ -8,7 +8,7 @@ def run(chk, replay=None):
         "extraction ExtrOcamlBasic only; ocaml/lockstep.ml, handlers/h_eventv1.ml, h_autoreset.ml glue",
         "k1_auto_reset.cpp: mailbox scheduler of the driver (one per consumer thread); stop callback of next() not exercised "
         "(cancellation = set_done in the model)",
-        "event_v2/*: MONITOR ONLY, no Coq model: k1_event_v2.cpp with a driver-side stop token (inplace_stop_token semantics)",
+        "event_v2: Coq model EventV2 tied by lock-step (unit event_v2.EventV2); the logic and lifetime runners of units/event.py remain as direct monitors (driver-side stop token with inplace_stop_token semantics)",
         "harness: verif_shim.hpp + dsched (serialises real threads: sequential consistency assumed; "
         "compare_exchange_weak never fails spuriously), k1_event_v1.cpp (hop_scheduler wrapper logs the hand-off)",
         "modelled not verified: the scheduler the completion is handed to (inline_scheduler / single_thread_context, C06); "
@@ -22,6 +22,7 @@ def run(chk, replay=None):
     # asks for the next element after the previous next() completed (doc/concepts.md), so the "spurious done"
     # of a second concurrent next() (theorem C16_autoreset_spurious_done_refuted) is outside the property.
     k1.run_unit(chk, async_pass.AsyncPass())
+    k1.run_unit(chk, event_v2.EventV2())   # Coq model EventV2 (Properties_C16_eventv2.v), lock-step
     k1.run_unit(chk, event.EventV2Logic())
     # keys name the failing call site (event_v2/touched-after-completion/<word>:<op>), not the program
     event.run_lifetime(chk)
